@@ -57,7 +57,7 @@ func ruleF1(c *Ctx, id string) {
 					return false
 				}
 				n, fl, base, _ := loadedField(argN(in, 0))
-				return n == V.Inode && fl == "Inum" && base == ip
+				return n == V.Inode && fl == "Inum" && base == stripConv(ip)
 			}
 			falseEdge := boolEdge(fn, cv, false)
 			ok := MustAfterE(fn, isStart, nil, falseEdge)(call)
